@@ -26,6 +26,8 @@ import (
 	"time"
 
 	"github.com/named-data/ndnd/fw/core"
+	"github.com/named-data/ndnd/fw/defn"
+	"github.com/named-data/ndnd/fw/face"
 	"github.com/named-data/ndnd/fw/table"
 )
 
@@ -499,12 +501,28 @@ func TestConcFree(t *testing.T) {
 // direct FIB updates, strategy changes, lookups whose results are read, listings) for the race detector and the runtime
 // to judge: a data-race report, "concurrent map" fatal error, panic or deadlock is the observation.
 func TestConcHammer(t *testing.T) {
+	w := newTrace("conc_hammer.ndjson")
+	defer w.Close()
 	nEx, nOps := envInt("VERIF_N", 6), envInt("VERIF_LEN", 1500)
+	lsetup := false
 	for tr := 0; tr < nEx; tr++ {
 		algo := []string{"nametree", "hashtable"}[tr%2]
-		concSetup(algo, []cRoute{{[]string{"a"}, 1, true}, {[]string{"a", "b"}, 2, true}})
+		rib0 := []cRoute{{[]string{"a"}, 1, true}, {[]string{"a", "b"}, 2, true}}
+		concSetup(algo, rib0)
+		if !lsetup {
+			face.Configure()
+			lsetup = true
+			for i := 0; i < 100; i++ { // face ids of the table start at 1: keep them apart from the faces 1..3 the writers register routes on
+				ls := face.VerifMakeLinkService(face.NewVerifMemTransport(defn.NonLocal, 1500), face.MakeNDNLPLinkServiceOptions())
+				face.FaceTable.Add(ls)
+				face.FaceTable.Remove(ls.FaceID())
+			}
+		}
+		w.Emit(map[string]any{"ev": "Reset", "algo": algo, "rib0": rib0, "prog": map[string][]cOp{}, "procs": []string{}, "mode": "hammer"})
 		var wg sync.WaitGroup
 		sum := atomic.Uint64{}
+		var rmu sync.Mutex
+		removed := []uint64{}
 		for g := 0; g < 16; g++ {
 			wg.Add(1)
 			go func() {
@@ -512,8 +530,25 @@ func TestConcHammer(t *testing.T) {
 				rng := rand.New(rand.NewSource(verifSeed()*77 + int64(tr*100+g)))
 				for i := 0; i < nOps; i++ {
 					switch {
-					case g < 6:
+					case g < 5:
 						runOp(randConcOp(rng, false))
+					case g == 5 || g == 6:
+						// a face comes up, gets routes, is looked up, and goes down through the face table (teardown path of the daemon)
+						if i%40 != 0 {
+							continue
+						}
+						ls := face.VerifMakeLinkService(face.NewVerifMemTransport(defn.NonLocal, 1500), face.MakeNDNLPLinkServiceOptions())
+						face.FaceTable.Add(ls)
+						id := ls.FaceID()
+						table.Rib.AddEncRoute(nm(joinName(concPrefixes[rng.Intn(5)])), &table.Route{FaceID: id, Cost: 1, Flags: flagsOf(rng.Intn(2) == 0)})
+						if face.FaceTable.Get(id) == nil {
+							panic("a face that was just added is not in the face table")
+						}
+						sum.Add(uint64(len(face.FaceTable.GetAll())))
+						face.FaceTable.Remove(id)
+						rmu.Lock()
+						removed = append(removed, id)
+						rmu.Unlock()
 					case g < 14:
 						res, _ := runOp(randConcOp(rng, true))
 						for _, h := range res {
@@ -545,6 +580,10 @@ func TestConcHammer(t *testing.T) {
 		case <-time.After(120 * time.Second):
 			t.Fatal("DEADLOCK: hammer goroutines did not finish within 120 s")
 		}
+		// quiescence: the FIB is what the routes prescribe, and nothing of a removed face is left
+		o := concObserve()
+		w.Emit(map[string]any{"ev": "hfinal", "rib": o["rib"], "fib": o["fib"], "strat": o["strat"], "removed": removed})
+		w.w.Flush()
 	}
 }
 
